@@ -199,6 +199,9 @@ func addPreemptions(sc *Scenario, yields map[int]int, windows, atomics map[int][
 	if len(atomics) > 0 && r.chance(0.5) {
 		kind = 3
 	}
+	if len(atomics) > 0 && r.chance(0.35) {
+		kind = 4
+	}
 	nt := len(sc.Tasks)
 	if nt < 2 {
 		return
@@ -240,6 +243,32 @@ func addPreemptions(sc *Scenario, yields map[int]int, windows, atomics map[int][
 		}
 		if len(sc.Preempt) > 400 {
 			sc.Preempt = sc.Preempt[:400]
+		}
+	case 4: // lock-free code: dense ping-pong, a switch at every atomic statement / lock operation with probability q
+		q := []float64{0.15, 0.3, 0.5}[r.intn(3)]
+		var ids []int
+		for id := range atomics {
+			ids = append(ids, id)
+		}
+		sort.Ints(ids)
+		for _, id := range ids {
+			t := taskOfOp(sc, id)
+			if t < 0 {
+				continue
+			}
+			seen := map[int]bool{}
+			for _, k := range atomics[id] {
+				if k < 1 || seen[k] {
+					continue
+				}
+				seen[k] = true
+				if r.chance(q) {
+					sc.Preempt = append(sc.Preempt, verifrt.Preempt{Task: t, Op: id, K: k, Next: other(t)})
+				}
+			}
+		}
+		if len(sc.Preempt) > 600 {
+			sc.Preempt = sc.Preempt[:600]
 		}
 	case 3: // targeted: inside pool-holding windows and right after a Put; next to sync/atomic statements
 		if len(atomics) > 0 && r.chance(0.7) {
@@ -431,6 +460,9 @@ func refC18(sc *Scenario) (res [][]Result, out *Outcome) {
 	out = &Outcome{}
 	res = make([][]Result, len(sc.Tasks))
 	for t := range sc.Tasks {
+		// every reference run and the concurrent run start from the same cold state
+		resetLibrary()
+		applyKnobs(sc.Knobs)
 		w := buildWorld(sc)
 		mon := newMemMonitor(sc, w)
 		res[t] = make([]Result, len(sc.Tasks[t].Ops))
@@ -478,6 +510,8 @@ func runC18(sc *Scenario) *Outcome {
 	if out.Violation != nil || out.Infra != "" {
 		return out
 	}
+	resetLibrary()
+	applyKnobs(sc.Knobs)
 	w := buildWorld(sc)
 	mon := newMemMonitor(sc, w)
 	res := make([][]Result, len(sc.Tasks))
